@@ -47,6 +47,210 @@ theorem C14_unitary_refuse (isInt known cheb spec : Bool) :
       (isInt = false ∨ known = false ∨ (cheb = true ∧ spec = false)) := by
   cases isInt <;> cases known <;> cases cheb <;> cases spec <;> simp [admitGeneratedUnitary]
 
+/-! ### operator indices beyond the orbital range (dense conversion `fermionops_tomatrix`) -/
+
+theorem largestIndex_fold (idxs : List Nat) (acc : Int × Int) (B : Int) :
+    let m := idxs.foldl (fun (acc : Int × Int) (i : Nat) => if i % 2 = 1 then (acc.1, max (i : Int) acc.2) else (max (i : Int) acc.1, acc.2)) acc
+    (B ≤ m.1 ↔ B ≤ acc.1 ∨ ∃ i ∈ idxs, i % 2 = 0 ∧ B ≤ (i : Int)) ∧
+    (B ≤ m.2 ↔ B ≤ acc.2 ∨ ∃ i ∈ idxs, i % 2 = 1 ∧ B ≤ (i : Int)) := by
+  induction idxs generalizing acc with
+  | nil => simp
+  | cons x xs ih =>
+    simp only [List.foldl_cons]
+    have h := ih (if x % 2 = 1 then (acc.1, max (x : Int) acc.2) else (max (x : Int) acc.1, acc.2))
+    simp only [] at h ⊢
+    obtain ⟨h1, h2⟩ := h
+    by_cases hx : x % 2 = 1
+    · simp only [hx, if_true] at h1 h2 ⊢
+      constructor
+      · rw [h1]
+        constructor
+        · rintro (a | ⟨i, hi, e, b⟩)
+          · exact Or.inl a
+          · exact Or.inr ⟨i, List.mem_cons_of_mem _ hi, e, b⟩
+        · rintro (a | ⟨i, hi, e, b⟩)
+          · exact Or.inl a
+          · rcases List.mem_cons.1 hi with rfl | hi
+            · omega
+            · exact Or.inr ⟨i, hi, e, b⟩
+      · rw [h2]
+        constructor
+        · rintro (a | ⟨i, hi, e, b⟩)
+          · by_cases q : B ≤ (x : Int)
+            · exact Or.inr ⟨x, List.mem_cons_self, hx, q⟩
+            · exact Or.inl (by omega)
+          · exact Or.inr ⟨i, List.mem_cons_of_mem _ hi, e, b⟩
+        · rintro (a | ⟨i, hi, e, b⟩)
+          · exact Or.inl (by omega)
+          · rcases List.mem_cons.1 hi with rfl | hi
+            · exact Or.inl (by omega)
+            · exact Or.inr ⟨i, hi, e, b⟩
+    · have hx0 : x % 2 = 0 := by omega
+      simp only [hx, if_false] at h1 h2 ⊢
+      constructor
+      · rw [h1]
+        constructor
+        · rintro (a | ⟨i, hi, e, b⟩)
+          · by_cases q : B ≤ (x : Int)
+            · exact Or.inr ⟨x, List.mem_cons_self, hx0, q⟩
+            · exact Or.inl (by omega)
+          · exact Or.inr ⟨i, List.mem_cons_of_mem _ hi, e, b⟩
+        · rintro (a | ⟨i, hi, e, b⟩)
+          · exact Or.inl (by omega)
+          · rcases List.mem_cons.1 hi with rfl | hi
+            · exact Or.inl (by omega)
+            · exact Or.inr ⟨i, hi, e, b⟩
+      · rw [h2]
+        constructor
+        · rintro (a | ⟨i, hi, e, b⟩)
+          · exact Or.inl a
+          · exact Or.inr ⟨i, List.mem_cons_of_mem _ hi, e, b⟩
+        · rintro (a | ⟨i, hi, e, b⟩)
+          · exact Or.inl a
+          · rcases List.mem_cons.1 hi with rfl | hi
+            · omega
+            · exact Or.inr ⟨i, hi, e, b⟩
+
+/-- the dense conversion refuses an operator exactly when one of its mode indices lies outside
+    `0 .. 2·norb − 1` (either spin) -/
+theorem C14_opindex_refuse (norb : Nat) (idxs : List Nat) :
+    (admitOpIndices norb idxs).isSome ↔ ∃ i ∈ idxs, 2 * norb ≤ i := by
+  unfold admitOpIndices largestIndex
+  have h := largestIndex_fold idxs (-1, -1) (2 * (norb : Int))
+  simp only [] at h
+  obtain ⟨h1, h2⟩ := h
+  generalize (idxs.foldl (fun (acc : Int × Int) (i : Nat) => if i % 2 = 1 then (acc.1, max (i : Int) acc.2) else (max (i : Int) acc.1, acc.2)) ((-1 : Int), (-1 : Int))) = m at h1 h2
+  have e1 : ((norb : Int) ≤ m.1 / 2) ↔ 2 * (norb : Int) ≤ m.1 := by omega
+  have e2 : ((norb : Int) ≤ m.2 / 2) ↔ 2 * (norb : Int) ≤ m.2 := by omega
+  simp only []
+  constructor
+  · intro hs
+    by_cases c1 : (norb : Int) ≤ m.1 / 2
+    · rcases h1.1 (e1.1 c1) with a | ⟨i, hi, _, b⟩
+      · omega
+      · exact ⟨i, hi, by omega⟩
+    · by_cases c2 : (norb : Int) ≤ m.2 / 2
+      · rcases h2.1 (e2.1 c2) with a | ⟨i, hi, _, b⟩
+        · omega
+        · exact ⟨i, hi, by omega⟩
+      · simp [c1, c2] at hs
+  · rintro ⟨i, hi, b⟩
+    by_cases ev : i % 2 = 0
+    · have : (norb : Int) ≤ m.1 / 2 := e1.2 (h1.2 (Or.inr ⟨i, hi, ev, by omega⟩))
+      simp [this]
+    · have : (norb : Int) ≤ m.2 / 2 := e2.2 (h2.2 (Or.inr ⟨i, hi, by omega, by omega⟩))
+      by_cases c1 : (norb : Int) ≤ m.1 / 2 <;> simp [c1, this]
+
+/-! ### RDM / Wick patterns -/
+
+theorem patternGo_none (sf : Bool) (nr : Nat) (ts : List Tok) (idx : Nat) (out : List (Nat × Bool × Nat))
+    (h : patternGo sf nr idx out ts = none) :
+    (∀ t ∈ ts, t.shaped = true) ∧ (ts.map (·.label)).Nodup ∧ ∀ t ∈ ts, ∀ o ∈ out, o.1 ≠ t.label := by
+  induction ts generalizing idx out with
+  | nil => simp
+  | cons t ts ih =>
+    rw [patternGo] at h
+    by_cases hs : t.shaped = true
+    · simp only [hs, Bool.not_true, Bool.false_eq_true, if_false] at h
+      by_cases hu : out.any (fun o => o.1 == t.label) = true
+      · simp [hu] at h
+      · simp only [hu, Bool.false_eq_true, if_false] at h
+        by_cases hc : (sf && out.any (fun o => o.2.2 == spinSlot sf nr idx && o.2.1 == t.dag)) = true
+        · simp [hc] at h
+        · simp only [hc, Bool.false_eq_true, if_false] at h
+          obtain ⟨a, b, c⟩ := ih _ _ h
+          have hu' : ∀ o ∈ out, o.1 ≠ t.label := by
+            intro o ho e
+            apply hu
+            rw [List.any_eq_true]
+            exact ⟨o, ho, by simp [e]⟩
+          refine ⟨?_, ?_, ?_⟩
+          · intro x hx
+            rcases List.mem_cons.1 hx with rfl | hx
+            · exact hs
+            · exact a x hx
+          · rw [List.map_cons, List.nodup_cons]
+            refine ⟨?_, b⟩
+            intro hm
+            obtain ⟨x, hx, e⟩ := List.mem_map.1 hm
+            exact c x hx (t.label, t.dag, spinSlot sf nr idx) (by simp) e.symm
+          · intro x hx o ho
+            rcases List.mem_cons.1 hx with rfl | hx
+            · exact hu' o ho
+            · exact c x hx o (by simp [ho])
+    · simp [hs] at h
+
+/-- a pattern that repeats a label — daggered or not, in any position —, has an odd number of tokens or contains a
+    token that is not of the form `x` / `x^` is refused -/
+theorem C14_pattern_refuse (sf : Bool) (toks : List Tok)
+    (h : toks.length % 2 = 1 ∨ (∃ t ∈ toks, t.shaped = false) ∨ ¬ (toks.map (·.label)).Nodup) :
+    (admitPattern sf toks).isSome := by
+  unfold admitPattern
+  by_cases hl : toks.length % 2 = 1
+  · simp [hl]
+  · simp only [hl, if_false]
+    cases hp : patternGo sf (toks.length / 2) 0 [] toks with
+    | some r => rfl
+    | none =>
+      obtain ⟨a, b, _⟩ := patternGo_none sf _ toks 0 [] hp
+      rcases h with h | ⟨t, ht, hs⟩ | h
+      · exact absurd h hl
+      · rw [a t ht] at hs; cases hs
+      · exact absurd b h
+
+theorem patternGo_admits (nr : Nat) (ts : List Tok) (idx : Nat) (out : List (Nat × Bool × Nat))
+    (hs : ∀ t ∈ ts, t.shaped = true) (hn : (ts.map (·.label)).Nodup) (hd : ∀ t ∈ ts, ∀ o ∈ out, o.1 ≠ t.label) :
+    patternGo false nr idx out ts = none := by
+  induction ts generalizing idx out with
+  | nil => rfl
+  | cons t ts ih =>
+    rw [patternGo]
+    have h1 : t.shaped = true := hs t List.mem_cons_self
+    have h2 : out.any (fun o => o.1 == t.label) = false := by
+      rw [List.any_eq_false]
+      intro o ho
+      simpa using hd t List.mem_cons_self o ho
+    simp only [h1, Bool.not_true, Bool.false_eq_true, if_false, h2, Bool.false_and]
+    rw [List.map_cons, List.nodup_cons] at hn
+    apply ih
+    · intro x hx; exact hs x (List.mem_cons_of_mem _ hx)
+    · exact hn.2
+    · intro x hx o ho
+      rcases List.mem_append.1 ho with ho | ho
+      · exact hd x (List.mem_cons_of_mem _ hx) o ho
+      · simp at ho
+        subst ho
+        intro e
+        exact hn.1 (List.mem_map.2 ⟨x, hx, e.symm⟩)
+
+/-- spin-orbital (not spin-free) patterns: refused exactly for the three malformations above -/
+theorem C14_pattern_iff (toks : List Tok) :
+    (admitPattern false toks).isSome ↔
+      (toks.length % 2 = 1 ∨ (∃ t ∈ toks, t.shaped = false) ∨ ¬ (toks.map (·.label)).Nodup) := by
+  constructor
+  · intro h
+    by_cases a : toks.length % 2 = 1
+    · exact Or.inl a
+    · by_cases b : ∃ t ∈ toks, t.shaped = false
+      · exact Or.inr (Or.inl b)
+      · by_cases c : (toks.map (·.label)).Nodup
+        · exfalso
+          unfold admitPattern at h
+          simp only [a, if_false] at h
+          rw [patternGo_admits _ toks 0 [] (by
+            intro t ht
+            cases hs : t.shaped with
+            | true => rfl
+            | false => exact absurd ⟨t, ht, hs⟩ b) c (by simp)] at h
+          cases h
+        · exact Or.inr (Or.inr c)
+  · exact C14_pattern_refuse false toks
+
+example : (admitPattern true [⟨0, false, true⟩, ⟨0, true, true⟩]).isSome ∧
+    (admitPattern true [⟨0, false, true⟩, ⟨1, false, true⟩, ⟨0, true, true⟩, ⟨2, true, true⟩]).isSome ∧
+    admitPattern true [⟨0, true, true⟩, ⟨1, false, true⟩] = none ∧
+    admitOpIndices 3 [0, 6, 2] = some .valueError ∧ admitOpIndices 3 [0, 5, 2] = none := by decide
+
 example : admitApply true true .restricted 3 2 = some .valueError ∧ admitApply true false .sparse 0 2 = some .typeError ∧
     admitApply true true .spinOrbital 4 2 = none := by decide
 
